@@ -15,6 +15,7 @@ type CsvCase struct {
 	Header  []string   `json:"header"`  // hex
 	Records [][]string `json:"records"` // hex
 	Raw     string     `json:"raw,omitempty"` // hex: raw file content for malformed cases (then Header/Records unused)
+	RawOK   bool       `json:"raw_ok,omitempty"` // Raw is well-formed and means exactly Header/Records
 	Big     bool       `json:"big"`
 	Present string     `json:"present"` // "" | garbage | index : pre-existing output
 }
@@ -41,7 +42,7 @@ func (c *CsvCase) fileBytes() []byte {
 	return buf.Bytes()
 }
 
-var csvFieldAlphabet = []string{"", "x", "1", "a,b", "say \"hi\"", "line1\nline2", "ünï", " lead", "trail ", "\"", "tab\there", "0", "-1", "日本語", "a\"\"b", ";", "'"}
+var csvFieldAlphabet = []string{"", "x", "1", "a,b", "say \"hi\"", "line1\nline2", "ünï", " lead", "trail ", "\"", "tab\there", "0", "-1", "日本語", "a\"\"b", ";", "'", " ", "\t", "%s"}
 var headerPool = []string{"a", "B", "Na me", "K2", "Äb", "x-y", "COUNT", "q_", "Zz9", "é", "u v w", "İd", "K", "hello.world", "A1", "b!"}
 
 func runCsvCase(o *Oracle, c *CsvCase, rep *Report, valid string) {
@@ -68,7 +69,7 @@ func runCsvCase(o *Oracle, c *CsvCase, rep *Report, valid string) {
 	viol := func(sig, what, exp, act string) {
 		rep.Violate(Violation{Kind: "input", Signature: sig, What: what + fmt.Sprintf(" [big=%v present=%q]", c.Big, c.Present), Expected: exp, Actual: trunc(act, 600), Case: c})
 	}
-	wellFormed := c.Raw == ""
+	wellFormed := c.Raw == "" || c.RawOK
 	rep.Eval(fmt.Sprintf("%x", sha256sum(c.fileBytes()))+fmt.Sprint(c.Big, c.Present), wellFormed && len(c.Records) > 0)
 	rep.Count(fmt.Sprintf("big=%v present=%q wellformed=%v", c.Big, c.Present, wellFormed))
 	if !wellFormed || c.Present != "" {
@@ -165,8 +166,8 @@ func genCsvCase(r *Rng) *CsvCase {
 	// encoding/csv skips empty lines: a record consisting of one empty field would vanish; avoid that shape
 	if nc == 1 {
 		for _, rec := range c.Records {
-			if rec[0] == "-" {
-				rec[0] = hx("e")
+			if rec[0] == "-" { // csv.Writer would write an empty line, which readers skip: not a record
+				rec[0] = hx(Pick(r, []string{" ", "\t", "  ", "e"}))
 			}
 		}
 	}
@@ -230,6 +231,13 @@ func runC19(rep *Report, r *Rng, tier string) {
 			Records: [][]string{{hx("bx"), hx("y"), hx("1")}, {hx("q"), hx("x"), hx("2")}, {hx("bx"), hx("x"), hx("3")}, {hx("b"), "-", hx("4")}}}
 		runCsvCase(o, c, rep, valid)
 		rep.Count("corpus-concatenation")
+	}
+	// one-column files with blank-looking fields: `""` (quoted empty) and whitespace are records like any other
+	for _, big := range []bool{false, true} {
+		c := &CsvCase{Big: big, RawOK: true, Raw: hx("name\n\"\"\nx\n \n\"\"\ny\n"), Header: []string{hx("name")},
+			Records: [][]string{{"-"}, {hx("x")}, {hx(" ")}, {"-"}, {hx("y")}}}
+		runCsvCase(o, c, rep, valid)
+		rep.Count("corpus-blank-fields")
 	}
 	for _, m := range malformedCSVs {
 		for _, big := range []bool{false, true} {
